@@ -1,17 +1,170 @@
 package main
 
 import (
+	"encoding/json"
+	"flag"
 	"fmt"
-	"golang.org/x/tools/go/packages"
-	"golang.org/x/tools/go/ssa"
-	"golang.org/x/tools/go/ssa/ssautil"
+	"os"
+	"path/filepath"
+	"sort"
+	"strconv"
+	"strings"
+	"sync"
+	"time"
 )
 
 func main() {
-	cfg := &packages.Config{Mode: packages.LoadAllSyntax, Dir: "/repo", BuildFlags: []string{"-tags=verif"}}
-	pkgs, err := packages.Load(cfg, "./internal/rules/mechanisms/authenticators")
-	if err != nil { panic(err) }
-	prog, _ := ssautil.AllPackages(pkgs, ssa.InstantiateGenerics)
-	prog.Build()
-	fmt.Println(len(pkgs), len(ssautil.AllFunctions(prog)))
+	if len(os.Args) < 2 {
+		fmt.Fprintln(os.Stderr, "usage: govc check|dump|list ...")
+		os.Exit(2)
+	}
+	switch os.Args[1] {
+	case "check":
+		os.Exit(cmdCheck(os.Args[2:]))
+	case "dump":
+		os.Exit(cmdDump(os.Args[2:]))
+	default:
+		fmt.Fprintln(os.Stderr, "unknown command", os.Args[1])
+		os.Exit(2)
+	}
+}
+
+func envOr(k, d string) string {
+	if v := os.Getenv(k); v != "" {
+		return v
+	}
+	return d
+}
+
+func cmdDump(args []string) int {
+	fs := flag.NewFlagSet("dump", flag.ExitOnError)
+	repo := fs.String("repo", envOr("VERIF_REPO", "/repo"), "")
+	pat := fs.String("pkgs", "./...", "")
+	fn := fs.String("func", "", "substring of function key")
+	fs.Parse(args)
+	w, err := LoadWorld(*repo, strings.Fields(*pat), "/verif/specs")
+	if err != nil {
+		fmt.Fprintln(os.Stderr, err)
+		return 2
+	}
+	var keys []string
+	for k := range w.funcs {
+		if strings.Contains(k, *fn) {
+			keys = append(keys, k)
+		}
+	}
+	sort.Strings(keys)
+	for _, k := range keys {
+		fmt.Println("### key:", k)
+		w.funcs[k].WriteTo(os.Stdout)
+	}
+	return 0
+}
+
+type propConfig struct {
+	Packages []string `json:"packages"`
+}
+
+func cmdCheck(args []string) int {
+	fs := flag.NewFlagSet("check", flag.ExitOnError)
+	repo := fs.String("repo", envOr("VERIF_REPO", "/repo"), "repository root")
+	verif := fs.String("verif", envOr("VERIF_HOME", "/verif"), "verif root")
+	prop := fs.String("prop", "", "property id")
+	tier := fs.String("tier", envOr("VERIF_TIER", "quick"), "quick|thorough")
+	pkgs := fs.String("pkgs", "", "package patterns (default from contracts/props/<id>.json or ./...)")
+	only := fs.String("only", "", "only functions whose key contains this")
+	verbose := fs.Bool("v", false, "verbose")
+	noClaims := fs.Bool("noclaims", false, "ignore claims (report everything)")
+	writeClaims := fs.Bool("write-claims", false, "write the claims file from the discharged obligations (development only)")
+	fs.Parse(args)
+	seed, _ := strconv.Atoi(envOr("VERIF_SEED", "0"))
+	t0 := time.Now()
+	if *prop == "" {
+		fmt.Fprintln(os.Stderr, "need -prop")
+		return 2
+	}
+	patterns := []string{"./..."}
+	if *pkgs != "" {
+		patterns = strings.Fields(*pkgs)
+	} else if b, err := os.ReadFile(filepath.Join(*verif, "contracts", "props", *prop+".json")); err == nil {
+		var pc propConfig
+		if json.Unmarshal(b, &pc) == nil && len(pc.Packages) > 0 {
+			patterns = pc.Packages
+		}
+	}
+	w, err := LoadWorld(*repo, patterns, filepath.Join(*verif, "specs"))
+	if err != nil {
+		fmt.Fprintln(os.Stderr, "ENGINE-ERROR: load:", err)
+		return 2
+	}
+	if len(w.ct.Errors) > 0 {
+		for _, e := range w.ct.Errors {
+			fmt.Fprintln(os.Stderr, "CONTRACT-ERROR:", e)
+		}
+		return 2
+	}
+	loadS := time.Since(t0).Seconds()
+	// select contracts
+	var cts []*Contract
+	for _, k := range sortedKeys(w.ct.Funcs) {
+		c := w.ct.Funcs[k]
+		if !c.InRepo || c.Trusted || c.Kind != "func" {
+			continue
+		}
+		has := false
+		for _, p := range c.Props {
+			if p == *prop {
+				has = true
+			}
+		}
+		if !has {
+			continue
+		}
+		if *only != "" && !strings.Contains(c.Key, *only) {
+			continue
+		}
+		cts = append(cts, c)
+	}
+	results := make([]*FuncResult, len(cts))
+	var wg sync.WaitGroup
+	var mu sync.Mutex
+	_ = mu
+	sem := make(chan struct{}, 8)
+	for i, c := range cts {
+		wg.Add(1)
+		sem <- struct{}{}
+		go func(i int, c *Contract) {
+			defer wg.Done()
+			defer func() { <-sem }()
+			results[i] = w.VerifyFunc(c)
+		}(i, c)
+	}
+	wg.Wait()
+	genS := time.Since(t0).Seconds() - loadS
+	engineErr := false
+	var obs []*Obligation
+	for _, r := range results {
+		if r.Err != "" && !r.Stale {
+			fmt.Fprintf(os.Stderr, "ENGINE-ERROR: %s: %s\n", r.Key, r.Err)
+			engineErr = true
+		}
+		if r.Stale {
+			fmt.Printf("STALE-CONTRACT %s\n", r.Key)
+		}
+		obs = append(obs, r.Obs...)
+	}
+	for _, ce := range w.contractErrors {
+		fmt.Fprintln(os.Stderr, "CONTRACT-ERROR:", ce)
+		engineErr = true
+	}
+	outDir := filepath.Join(*verif, "out", *prop)
+	os.RemoveAll(outDir)
+	timeout := 10
+	if *tier == "thorough" {
+		timeout = 60
+	}
+	verdicts := SolveAll(obs, filepath.Join(outDir, "smt"), timeout, *tier == "thorough", 6)
+	rep := &Report{Prop: *prop, Tier: *tier, Seed: seed, Verif: *verif, Repo: *repo, Results: results, Verdicts: verdicts,
+		LoadS: loadS, GenS: genS, T0: t0, Verbose: *verbose, NoClaims: *noClaims, WriteClaims: *writeClaims, World: w, EngineErr: engineErr, OutDir: outDir}
+	return rep.Finish()
 }
